@@ -273,7 +273,8 @@ class Gen:
                                       "transform: translate( -50% , -50% )", "unicode-range: U+0025-00FF"]))
         return {"t": "rule", "sel": sel, "text": textexpr, "bg": bgexpr, "extras": extras,
                 "imp": rnd.random() < 0.15, "dup": rnd.random() < 0.15, "comment": rnd.random() < 0.3,
-                "dupbg": bgexpr is not None and rnd.random() < 0.2}
+                "dupbg": bgexpr is not None and rnd.random() < 0.2,
+                "samecolor": textexpr is not None and rnd.random() < 0.2}
 
     def sprinkle(self, nodes):
         rnd = self.rnd
@@ -285,11 +286,21 @@ class Gen:
                  ".esc\\31 23 { width: 1px\\9 }", "<!-- .cdo { top: 0 } -->",
                  "/* separators \u2028 inside \x0b a \x85 comment \x1c */", ".sep::after { content: \"a\u2028b\x0bc\u2029d\x85e\x1d\" }",
                  ".uni\u2028x { margin: 0 }"]
+        # blocks that LOOK like the document-wide ones but are not (:root / html with more to the selector): their custom
+        # properties - the same names, other values - are theme overrides, not the definitions in effect
+        names = [k for k in self.var_defs if k.startswith("--c") or k.startswith("--bg")]
+        if names:
+            for sel_ in ("html.dark", ":root[data-theme=\"dark\"]", "html body", ":root:not(.x)", "html > body", "HTML.no-js"):
+                nm = rnd.choice(names)
+                carry.append("%s { %s: %s; --unrelated-%d: 1px }" % (sel_, nm, rnd.choice(["#fefefe", "#020202", "rgb(1, 2, 3)"]), self.n))
         out = []
         first = True
         for n in nodes:
             if rnd.random() < 0.3:
                 item = rnd.choice(carry)
+                if item.startswith("@charset") and first and rnd.random() < 0.6:
+                    # the stylesheet is UTF-8 whatever label it carries (the command reads and writes UTF-8)
+                    item = "@charset \"%s\";" % rnd.choice(["windows-1252", "iso-8859-1", "shift_jis", "UTF-8", "us-ascii"])
                 if item.startswith("@charset") and not first:
                     item = "/* c */"
                 out.append({"t": "opaque", "css": item})
@@ -297,6 +308,10 @@ class Gen:
             first = False
         if rnd.random() < 0.4:
             out.append({"t": "opaque", "css": rnd.choice(carry[4:])})
+        if rnd.random() < 0.2 and not (out and out[0]["t"] == "opaque" and out[0]["css"].startswith("@charset")):
+            # a legacy @charset label left over in a stylesheet that is saved as UTF-8, with non-ASCII text further down
+            out.insert(0, {"t": "opaque", "css": "@charset \"%s\";" % rnd.choice(["windows-1252", "iso-8859-1", "shift_jis", "koi8-r"])})
+            out.append({"t": "opaque", "css": "/* \u00dcberschriften \u2013 caf\u00e9 \u2713 */ .na\u00efve::before { content: \"\u00ab\u00e9\u00bb \u2192 \u00fc\"; margin: 0 }"})
         return out
 
 
@@ -327,13 +342,21 @@ def render(nodes, rnd, indent=""):
         else:
             decls = list(n["extras"])
             imp = " !important" if n["imp"] else ""
+            # white space or a comment between a property name and its colon, and none after it, are all the same declaration
+            colon = rnd.choice([": ", ": ", ": ", ":", " : ", "\n:", "/**/:", " :"]) if n.get("oddcolon", True) else ": "
             if n["text"] is not None:
                 if n["dup"]:
                     decls.insert(0, "color: #010203" + imp)      # an earlier declaration that the last one overrides
-                decls.insert(rnd.randrange(len(decls) + 1) if not n["dup"] else len(decls), f"color: {expr_css(n['text'])}{imp}")
+                decls.insert(rnd.randrange(len(decls) + 1) if not n["dup"] else len(decls), f"color{colon}{expr_css(n['text'])}{imp}")
+                if n.get("samecolor"):
+                    # other properties whose name ends in "color", and a comment, carrying the very same value text
+                    tv = expr_css(n["text"])
+                    for extra in rnd.sample([f"border-color: {tv}", f"caret-color:{tv}", f"text-decoration-color: {tv}", f"/* was color: {tv} */",
+                                             f"outline-color : {tv}", f"-webkit-text-fill-color: {tv}"], rnd.choice([1, 2])):
+                        decls.insert(rnd.randrange(len(decls) + 1), extra)
             if n["bg"] is not None:
                 pos_bg = rnd.randrange(len(decls) + 1)
-                decls.insert(pos_bg, f"background-color: {expr_css(n['bg'])}")
+                decls.insert(pos_bg, f"background-color{colon if rnd.random() < 0.5 else ': '}{expr_css(n['bg'])}")
                 if n.get("dupbg"):
                     # an earlier background-color declaration of the opposite polarity that the last one overrides
                     other = "#101010" if refs.wcag_lum(refs.css_read_opaque(expr_css(n["bg"])) or (255, 255, 255)) > 0.3 else "#fafafa"
